@@ -214,13 +214,13 @@ func (repl) Execute(plan any, keep bool) *core.Result {
 	ref := newSide(p.Seed, core.NewHistory(false))
 	refImports := map[string]string{}
 	ref.rets, ref.err = ref.h.Eval("stdin", strings.Join(p.Stmts, ";\n"), goatlang.WithEvalImports(refImports))
-	if ref.err != nil || len(ref.h.Escapes) > 0 {
+	refFailed := ref.err != nil || len(ref.h.Escapes) > 0
+	if refFailed {
 		res.Counters.Inc("ref_failed")
-		res.Abstract = "ref-failed"
 		hist.Add("ref", "failed", fmt.Sprint(ref.err))
-		return finish()
+	} else {
+		res.Counters.Inc("ref_ok")
 	}
-	res.Counters.Inc("ref_ok")
 	if p.Enumerated {
 		res.Counters.Inc("all_cuts_enumerated")
 	}
@@ -295,6 +295,15 @@ func (repl) Execute(plan any, keep bool) *core.Result {
 		res.Fail("C18", "C18/out", "panic", "incremental evaluation panicked (%s) [raised at %s]", esc, inc.h.EscapeSites[i])
 	}
 	if !res.OK() {
+		return finish()
+	}
+	if refFailed {
+		// both strategies failing is no case (a minimiser may cut a definition away);
+		// one succeeding where the other fails is a difference
+		res.Abstract = "ref-failed"
+		if failed == nil && !core.IsBudget(ref.err) {
+			res.Fail("C18", "C18/out", "whole-program-failed", "fed in %d messages the program evaluates, but as one Eval call it fails: %v", len(msgs), firstLine(fmt.Sprint(ref.err)))
+		}
 		return finish()
 	}
 	if failed != nil {
